@@ -1750,6 +1750,8 @@ class Interp:
                 if isinstance(v, (Bound, ClsMethod, Closure, FuncInfo)):
                     return True
             elif isinstance(x, BT):
+                if x.name == "int" and isinstance(v, NP.NpInt):
+                    continue        # a NumPy integer scalar is not a Python int
                 if x.name == "int" and isinstance(v, bool):
                     return True
                 if x.name == "float" and isinstance(v, SymScalar):
@@ -2473,6 +2475,11 @@ class Interp:
             return self.call_fn(r[1], [o, k], {})
         if isinstance(o, AArr):
             return NP.getitem(o, k)
+        if isinstance(o, NP.IdxArr):
+            try:
+                return o[k]
+            except NumpyRaise as e:
+                raise PyRaise(e.exc_name, node, e.msg)
         if isinstance(o, (SymScalar, int, float)) or o is None:
             raise PyRaise("TypeError", node, f"'{self.tname(o)}' object is not subscriptable")
         if isinstance(o, (Marker, BT)):
@@ -2737,6 +2744,13 @@ class Interp:
             return l is r or (l in (None, True, False) and l is r)
         if isinstance(op, ast.IsNot):
             return l is not r
+        if isinstance(op, (ast.Eq, ast.NotEq)):
+            for a, b in ((l, r), (r, l)):
+                # np.array(dim.items) == item : the vector of item tests (items are known labels, so is the outcome)
+                if isinstance(a, AArr) and a.ndim == 1 and isinstance(a.term, tuple) and a.term[:2] == ("in", "items") and NP.is_labelled(a.axes[0]) \
+                        and not isinstance(b, (AArr, SymScalar, list, tuple, dict, NP.IdxArr)):
+                    hits = [self.py_eq(it, b) for it in a.axes[0]]
+                    return NP.IdxArr([bool(h) if isinstance(op, ast.Eq) else not h for h in hits])
         if isinstance(l, (AArr, SymScalar)) or isinstance(r, (AArr, SymScalar)):
             name = {ast.Eq: "eq", ast.NotEq: "ne", ast.Gt: "gt", ast.GtE: "ge", ast.Lt: "lt", ast.LtE: "le"}[type(op)]
             return self.data_compare(name, l, r, n)
